@@ -33,12 +33,12 @@ from . import c20
 
 PROP = "C11"
 RULES = ("R1", "R2", "R5")
-GROUPS = {"se2": ("smooth::SE2d", G_.se2), "so3": ("smooth::SO3d", G_.so3), "v2": ("Eigen::Matrix<double, 2, 1>", G_.r2), "v1": ("Eigen::Matrix<double, 1, 1>", G_.r1)}
-CONFIGS = [(1, "se2"), (2, "se2"), (3, "se2"), (2, "so3"), (3, "v2"), (6, "v1")]
+GROUPS = {"so2": ("smooth::SO2d", G_.so2), "c1": ("smooth::C1d", G_.c1), "se2": ("smooth::SE2d", G_.se2), "so3": ("smooth::SO3d", G_.so3), "v2": ("Eigen::Matrix<double, 2, 1>", G_.r2), "v1": ("Eigen::Matrix<double, 1, 1>", G_.r1)}
+CONFIGS = [(1, "se2"), (2, "se2"), (3, "se2"), (2, "so3"), (3, "v2"), (6, "v1"), (2, "so2"), (3, "c1")]      # the commutative non-vector groups: eval_gs only
 
 
 def tu():
-    t = ('#include <cmath>\n#include <array>\n#include <span>\n#include <Eigen/Core>\n#include <smooth/se2.hpp>\n#include <smooth/so3.hpp>\n#include <smooth/spline/cumulative_spline.hpp>\n'
+    t = ('#include <cmath>\n#include <array>\n#include <span>\n#include <Eigen/Core>\n#include <smooth/c1.hpp>\n#include <smooth/se2.hpp>\n#include <smooth/so3.hpp>\n#include <smooth/spline/cumulative_spline.hpp>\n'
          'using namespace smooth;\n'
          'template<int K, class G, PolynomialBasis B> struct CS {\n'
          '  static constexpr int N = Dof<G>;\n'
